@@ -270,7 +270,7 @@ GLOBL flip_mask<>(SB), RODATA, $16
 	\
 	MOVQ AX, BX                              \
 	SUBQ $0x7FFFFFFF, AX                     \
-	CMOVQCS BX, AX                           \
+	CMOVQLS BX, AX                           \ // keep 2^31-1 itself: a cell is never zero (GB/T 33133.1, LFSR step 2)
 	\ // LFSR_S16 = (LFSR_S15++) = AX
 	MOVL AX, (((0 + idx) % 16)*4)(SI)
 
